@@ -84,12 +84,25 @@ def construct(d, rng, depth, ctx):
                     'accentverb', 'newline', 'opformula', 'umacro0', 'gls',
                     'mathunk', 'specialrun', 'defmac', 'optmac', 'hash',
                     'texorpdf', 'nonumber', 'textinmath', 'xspace', 'cites',
-                    'twofoot', 'mlarg', 'mlarg', 'ctlglue', 'phrase', 'ctlarg'])
+                    'twofoot', 'mlarg', 'mlarg', 'ctlglue', 'phrase', 'ctlarg',
+                    'decomposed', 'twice'])
     d.kind(k)
     if k == 'textbf':
         d.add('\\textbf{')
         sentence(d, rng, depth - 1, ctx)
         d.add('}')
+    elif k == 'decomposed':
+        # a letter written as base letter + combining mark (not normalised)
+        d.add(rng.choice(['Cafe\u0301', 'a\u0308b', 'n\u0303', 'o\u0302\u0301']))
+        d.add(' ')
+        d.word(rng)
+    elif k == 'twice':
+        # an argument that the macro body uses twice, holding a markup-only
+        # line in front of a blank line (plain words: each appears twice)
+        d.add('\\utw{alpha' + rng.choice(['\n\\label{tw}\n\nbeta', ' gamma', '\n\\index{tw}\n\n\\label{tw}\nbeta'])
+              + '}')
+        d.add(' ')
+        d.word(rng)
     elif k == 'ctlarg':
         # a control word as the last token of a macro argument: the blank
         # behind the closing brace separates the words (TeX skips blanks
@@ -217,9 +230,14 @@ def construct(d, rng, depth, ctx):
         d.add(' ')
         d.word(rng)
     elif k == 'gls' and 'gls' in ctx:
-        d.add(rng.choice(['\\gls{pp}', '\\Gls{pp}', '\\glspl{ex}', '\\GLS{ex}',
-                          '\\Glsdesc{ex}', '\\gls{ex}', '\\gls{nolabel}',
-                          '\\glsdisp{ex}{']))
+        g = rng.choice(['\\gls{pp}', '\\Gls{pp}', '\\glspl{ex}', '\\GLS{ex}',
+                        '\\Glsdesc{ex}', '\\gls{ex}', '\\gls{nolabel}',
+                        '\\glsdisp{ex}{', '\\GLS{mu}', '\\Gls{mu}', '\\gls{mu}',
+                        '\\Glspl{mu}', '\\GLSdesc{mu}', '\\GLS{tx}', '\\GLSpl{tx}', '\\Glsdesc{tx}'])
+        if '{mu}' in g:
+            # the entry text holds an undeclared macro: used in text
+            d.unk.append(('\\unkgd' if 'desc' in g else '\\unkgl', False))
+        d.add(g)
         if d.parts[-1].endswith('{') and not d.parts[-1].endswith('}'):
             d.word(rng)
             d.add('}')
@@ -475,12 +493,17 @@ PREAMBLE = ('\\newcommand{\\um}[1]{#1}\n\\newcommand{\\umm}[1]{<#1>}\n'
             '\\newcommand{\\uc}{U \\textbf{c}}\n'
             '\\newcommand{\\umd}[2][dflt]{<#1|#2>}\n'
             '\\newcommand{\\utf}{\\footnote{fa fb}\\footnote{fc}}'
-            '\\newcommand{\\utg}[1]{\\footnote{#1 fd}\\footnote{fe}}\n')
+            '\\newcommand{\\utg}[1]{\\footnote{#1 fd}\\footnote{fe}}\n'
+            '\\newcommand{\\utw}[1]{#1 / #1}\n')
 
 GLSDEFS = ('\\gls@defglossaryentry{pp}%\n{%\nname={ppm},%\ntext={ppm},%\n'
            'plural={ppms},%\ndescription={parts per million}%\n}%\n'
            '\\gls@defglossaryentry{ex}%\n{%\nname={example},%\ntext={example},%\n'
-           'plural={examples},%\ndescription={a sample}%\n}%\n')
+           'plural={examples},%\ndescription={a sample}%\n}%\n'
+           '\\gls@defglossaryentry{mu}%\n{%\nname={\\unkgl\\ level two},%\ntext={\\unkgl\\ level two},%\n'
+           'plural={\\unkgl\\ levels},%\ndescription={with a macro \\unkgd inside}%\n}%\n'
+           '\\gls@defglossaryentry{tx}%\n{%\nname={\\TeX\\ system},%\ntext={\\TeX\\ system},%\n'
+           'plural={\\TeX\\ systems},%\ndescription={the \\LaTeX\\ base}%\n}%\n')
 
 
 def gen_doc(rng, depth=2, blocks=None, lang=False, preamble=True, files=None,
